@@ -11,7 +11,7 @@ RULE = ('sender against a scripted receiver on the virtual clock: all 137 valid 
         '0.05} x block sizes {0,1,3} x a second Flow Control with another STmin at a block boundary or mid-block x schedules of process() '
         'calls with steps in {0, st/3, st-1 ns, st+1 ns, 5 st} and bursts of calls at one instant. Oracle: between successive Consecutive '
         'Frames at least the separation time of the most recent ContinueToSend (or the override) elapses on the virtual clock; with a zero '
-        'separation time one process() call emits every Consecutive Frame up to the end of the block. Plus the exhaustive 256-entry STmin '
+        'separation time one process() call emits every Consecutive Frame up to the end of the block - on a fresh layer, after an earlier message and after an earlier block paced with 5 ms. Plus the exhaustive 256-entry STmin '
         'decoding table (implementation vs Coq PrimFloat definition vs documented values). All runs replayed on the extracted model.'
         ' Stray Wait flow controls (refused: wftmax=0) carrying other STmin bytes are mixed in: only a ContinueToSend changes the separation time.')
 ASSUME = ['"handed to the CAN layer" is the processing instant of the virtual clock; pacing by next_cf_delay()/wait_func in the worker thread is runtime']
@@ -126,8 +126,20 @@ def gen_zero(rng):
     plen = 1 if inst['txa']['mode'].startswith(('Extended', 'Mixed')) else 0
     n = rng.choice([40, 90])
     ncf = -(-(n - (6 - plen)) // (7 - plen))
-    ops = [[0, 'send', None, hx(bytes(range(n)))], [0, 'proc', 1, 1], [0, 'rx', rid, int(ext), hx(pfx + bytes([0x30, bs, stb]))], [0, 'proc', 1, 1]]
-    return {'insts': [inst], 'ops': ops, 'nops': len(ops), 'expect_cf': ncf if bs == 0 else min(bs, ncf), 'override': ov}
+    fc = lambda bs_, st_: [0, 'rx', rid, int(ext), hx(pfx + bytes([0x30, bs_, st_]))]
+    pre = []
+    expect = ncf if bs == 0 else min(bs, ncf)
+    hist = rng.choice(['fresh', 'fresh', 'earlier_message', 'earlier_block']) if ov is None else 'fresh'
+    if hist == 'earlier_message':
+        # the layer has paced an earlier message with a non-zero separation time: the zero of the next Flow Control replaces it
+        pre = [[0, 'send', None, hx(bytes(range(20)))], [0, 'proc', 1, 1], fc(0, 5)] + [[0, 'tick', 5100000], [0, 'proc', 1, 1]] * 5
+    ops = pre + [[0, 'send', None, hx(bytes(range(n)))], [0, 'proc', 1, 1]]
+    if hist == 'earlier_block':
+        # ... or an earlier block of the same message
+        ops += [fc(2, 5)] + [[0, 'tick', 5100000], [0, 'proc', 1, 1]] * 3
+        expect = (ncf - 2) if bs == 0 else min(bs, ncf - 2)
+    ops += [fc(bs, stb), [0, 'proc', 1, 1]]
+    return {'insts': [inst], 'ops': ops, 'nops': len(ops), 'expect_cf': expect, 'override': ov, 'history': hist}
 
 
 def oracle_zero(case, lines, insts):
